@@ -61,7 +61,8 @@ def check(db, rep):
             r1.ok('TextConcept::' + name, '%s on %s' % (callee, tfields), '%s:%d' % (f.file, f.line))
 
     # ------------------------------------------------------------------ r2
-    r2 = rep.rule('r2', 'TOKENS: TranslateRS lexes an unmodified copy, replaces [token start + offset, + old length) and accumulates the offset by new - old length once per replacement', 4)
+    r2 = rep.rule('r2', 'TOKENS: TranslateRS lexes an unmodified copy, replaces [token start + offset, + old length) and accumulates the offset by new - old length once per replacement; interpreted on scripted token streams it rewrites every name up to END whatever tokens stand in between', 5)
+    _translate_all_tokens(db, r2)
     f = db.fn(R + 'TranslateRS')
     K = Keyer(f, resolve_refs=False)
     where = '%s:%d' % (f.file, f.line)
@@ -272,8 +273,9 @@ def _units_and_support(db, rep):
                           'it is not passed to a function that applies its translator to RSConcept::convention, unless the convention translated with the plain map is stored afterwards', 1)
     _marking_translator(db, r11)
     _raw_text_minimal(db, rep)
-    r14 = rep.rule('r14', 'TRANSLATE-EVERYONE: after an equation every constituent is translated - conventions are free text and sit in no dependency graph, so a translation restricted to the dependants found through the graphs misses their mentions', 1)
+    r14 = rep.rule('r14', 'TRANSLATE-EVERYONE: after an equation every constituent is translated - conventions are free text and sit in no dependency graph, so a translation restricted to the dependants found through the graphs misses their mentions; and the schema-level translations apply RSConcept::Translate (definition and convention) to the target on every path / to every stored constituent', 3)
     _translate_everyone(db, r14)
+    _schema_translate_total(db, r14)
     r13 = rep.rule('r13', 'DUPLICATES-REWRITTEN (shared with C12 r8): duplicate elimination, interpreted, rewrites every mention of an erased duplicate to its survivor and renames nothing else', 1)
     from rules import C12 as _C12
     _C12.duplicates_evaluated(db, r13)
@@ -552,6 +554,97 @@ def _raw_text_minimal(db, rep):
         r12.violation('TranslateRaw', '%s:%d' % (tr.file, tr.line), bad)
     else:
         r12.ok('TranslateRaw', '%d (text, map) pairs over %d reference spellings' % (cases, len(refs)), '%s:%d' % (tr.file, tr.line))
+
+
+def _translate_all_tokens(db, rule):
+    """r2 all-tokens: TranslateRS interpreted over scripted token streams `X1 <t> X1 <t> X12` for every token kind t of the language except END
+    (the lexer reports a symbol outside the language as the ordinary token INTERRUPT and goes on): both names are rewritten whatever stands
+    between them, names are whole tokens (X12 stays), and the count is the number of replacements."""
+    from engine.evalmini import Interp, Obj, OutOfFragment, NOT_HANDLED, enum_values
+    f = db.fn(R + 'TranslateRS')
+    T = enum_values(db, R + 'TokenID')
+    if 'END' not in T or 'ID_GLOBAL' not in T:
+        rule.broken('TokenID::END / ID_GLOBAL not found')
+        return
+    bad, cases = None, 0
+    try:
+        for tname, tval in sorted(T.items(), key=lambda kv: kv[1]):
+            if tname in ('END', 'ID_GLOBAL'):
+                continue
+            for new in ('X2', 'X345'):
+                sym = '#'
+                text = 'X1 %s X1 %s X12' % (sym, sym)
+                toks = [(T['ID_GLOBAL'], 'X1', 0), (tval, sym, 3), (T['ID_GLOBAL'], 'X1', 5), (tval, sym, 8), (T['ID_GLOBAL'], 'X12', 10), (T['END'], '', len(text))]
+
+                def on_call(it, fn, n, env, toks=toks):
+                    cs = (n.get('cs') or '').split('::')[-1]
+                    if n['k'] in ('CXXConstructExpr', 'CXXTemporaryObjectExpr') and (n.get('cls') or '').endswith('MathLexer'):
+                        return Obj(__cls__='lexer', i=-1)
+                    if cs in ('lex', 'Text', 'RangeInBytes') and 'obj' in n:
+                        o = it.eval(fn, fn.stmts[n['obj']], env)
+                        if isinstance(o, Obj) and o.get('__cls__') == 'lexer':
+                            if cs == 'lex':
+                                o['i'] = min(o['i'] + 1, len(toks) - 1)
+                                return toks[o['i']][0]
+                            t = toks[o['i']]
+                            return bytearray(t[1].encode()) if cs == 'Text' else Obj(start=t[2], finish=t[2] + len(t[1]))
+                    return NOT_HANDLED
+                buf = bytearray(text.encode())
+                flt = ('pyfn', lambda t: t == T['ID_GLOBAL'])
+                m = {'X1': new}
+                tr = ('pyfn', lambda s_, m=m: bytearray(m[bytes(s_).decode()].encode()) if bytes(s_).decode() in m else None)
+                cnt = Interp(db, on_call=on_call).call(f, [buf, flt, tr])
+                want = '%s %s %s %s X12' % (new, sym, new, sym)
+                cases += 1
+                if (bytes(buf).decode() != want or cnt != 2) and bad is None:
+                    bad = 'token stream X1 <%s> X1 <%s> X12 with X1 -> %s: the text becomes "%s" (%s replacements), expected "%s" (2): a name after a %s token is not rewritten' % (tname, tname, new, bytes(buf).decode(), cnt, want, tname)
+    except OutOfFragment as e:
+        rule.broken('TranslateRS outside the evaluable fragment: %s' % e)
+        return
+    if bad:
+        rule.violation('all-tokens', '%s:%d' % (f.file, f.line), bad)
+    else:
+        rule.ok('all-tokens', 'TranslateRS interpreted on %d scripted token streams (every token kind between two occurrences of the name): only END ends the translation' % cases, '%s:%d' % (f.file, f.line))
+
+
+def _schema_translate_total(db, rule):
+    """Schema::Translate / Schema::TranslateAll: RSConcept::Translate (which rewrites the definition *and* the convention) is applied to the target on
+    every path / to every stored constituent - a constituent without a definition still mentions names in its convention."""
+    CT = 'ccl::semantic::RSConcept::Translate'
+    f = db.fn('ccl::semantic::Schema::Translate', required=False)
+    g = db.fn('ccl::semantic::Schema::TranslateAll', required=False)
+    if f is None or g is None or not f.has_cfg() or not g.has_cfg():
+        rule.broken('anchor vanished: Schema::Translate / Schema::TranslateAll')
+        return
+    sites = call_sites(f, lambda n: n.get('cs') == CT)
+    if not sites:
+        rule.violation('Schema::Translate', '%s:%d' % (f.file, f.line), 'Schema::Translate does not translate the stored constituent')
+    else:
+        entry = f.graph()[1]
+        bad = paths_avoiding(f, [entry], [p for p, _ in sites], success_exits(f, failure_literals=()))
+        if bad:
+            rule.violation('Schema::Translate', f.loc(sites[0][1]), 'Schema::Translate can return without translating the target: a constituent that mentions the old name only in its convention (a base set has no definition) keeps a name that now denotes nothing or something else')
+        else:
+            rule.ok('Schema::Translate', 'the constituent is translated on every path', f.loc(sites[0][1]))
+    calls = [c for c in g.calls() if c.get('cs') == CT]
+    ok = False
+    where = '%s:%d' % (g.file, g.line)
+    for c in calls:
+        loop = next((a for a in g.ancestors(c) if a['k'] == 'CXXForRangeStmt'), None)
+        if loop is None:
+            continue
+        where = g.loc(c)
+        body = list(g.walk(g.stmts[loop['body']]))
+        guarded = any(a['k'] in ('IfStmt', 'ConditionalOperator', 'SwitchStmt') and any(y is a for y in body) for a in g.ancestors(c))
+        jumps = [n for n in body if n['k'] in ('ContinueStmt', 'BreakStmt', 'ReturnStmt', 'GotoStmt')]
+        rng = g.stmts[loop['range']]
+        whole = any(x['k'] == 'CXXThisExpr' or x.get('member') == 'storage' for x in g.walk(rng))
+        if not guarded and not jumps and whole:
+            ok = True
+    if ok:
+        rule.ok('Schema::TranslateAll', 'every stored constituent is translated, unconditionally', where)
+    else:
+        rule.violation('Schema::TranslateAll', where, 'Schema::TranslateAll does not translate every stored constituent unconditionally (a condition, a jump in the loop body or a partial range): conventions of the skipped constituents keep the old names')
 
 
 def _translate_everyone(db, rule):
